@@ -503,7 +503,14 @@ class StmtMixin:
         last = z3.Function(fresh_name("lastpos"), kt.sort(), z3.IntSort())
         i0 = z3.Int(fresh_name("cp"))
         li = last(at(kterm, i0))
-        st.assume(z3.ForAll([i0], z3.Implies(at(passing, i0), z3.And(at(passing, li), at(kterm, li) == at(kterm, i0), i0 <= li)), patterns=[li]))
+        ax = z3.Implies(at(passing, i0), z3.And(at(passing, li), at(kterm, li) == at(kterm, i0), i0 <= li))
+        try:
+            st.assume(z3.ForAll([i0], ax, patterns=[li]))  # fires on last(key) terms (goals about values of the result) ..
+        except z3.Z3Exception:
+            pass  # the key term cannot be a pattern (contains an ite / arithmetic only)
+        st.assume(z3.ForAll([i0], ax))  # .. and with the solver's own triggers (goals about source positions)
+        # direct consequence: the key of every passing position is in the domain
+        st.assume(z3.ForAll([i0], z3.Implies(at(passing, i0), z3.Select(dom, at(kterm, i0)))))
         # the same, keyed by the result's keys (the form that goals about `k in result` instantiate)
         ly = last(y)
         st.assume(z3.ForAll([y], z3.Implies(z3.Select(dom, y), z3.And(at(passing, ly), at(kterm, ly) == y))))
@@ -836,6 +843,9 @@ class StmtMixin:
             st.env[t.id] = v
             if not mutate:
                 st.escaped.discard(t.id)
+                st.rebound.add(t.id)
+            elif t.id not in st.rebound and self.is_mutable_container(v):
+                st.mutated.add(t.id)  # in-place mutation of the object the name was bound to at entry (a parameter: caller-visible)
             return
         if isinstance(t, (ast.Tuple, ast.List)):
             parts = self.unpack(v, len(t.elts), st, node)
@@ -1013,6 +1023,8 @@ class StmtMixin:
             else:
                 return None  # python-level field differs between the branches: keep the paths apart
         m.escaped = a.escaped | b.escaped
+        m.mutated = a.mutated | b.mutated
+        m.rebound = a.rebound & b.rebound
         # fact caches (dict well-formedness ..): only what was assumed BEFORE the branch is available unconditionally
         m.ghost = {k: v for k, v in a.ghost.items() if not (isinstance(v, tuple) and len(v) == 2 and isinstance(v[1], int) and v[1] >= base)}
         # keep the branch-local facts as implications
